@@ -39,6 +39,42 @@ type Script struct {
 	base   []string // SMT commands
 	Obls   []*Obligation
 	nfresh int
+	memo   map[string]*Term // when set, Define returns the same constant for syntactically equal terms
+	// scoped scripts (E-SCAN): assertions made inside PushScope/PopScope are visible only to the
+	// obligations of that scope; declarations and AssertTop facts are hoisted to the top level
+	scoped  bool
+	dropQuant bool // render without quantified assertions (weaker context, decidable fragment)
+	top     []string
+	memoLog []string
+	marks   []int
+}
+
+// AssertTop asserts an unconditional fact at the top level (visible in every scope).
+func (s *Script) AssertTop(t *Term) {
+	if !s.scoped {
+		s.Assert(t)
+		return
+	}
+	if t.isTrue() {
+		return
+	}
+	s.ensureDeclared(t)
+	s.top = append(s.top, "(assert "+t.String()+")")
+}
+
+func (s *Script) PushScope() {
+	s.base = append(s.base, "(push 1)")
+	s.marks = append(s.marks, len(s.memoLog))
+}
+
+func (s *Script) PopScope() {
+	s.base = append(s.base, "(pop 1)")
+	m := s.marks[len(s.marks)-1]
+	s.marks = s.marks[:len(s.marks)-1]
+	for _, k := range s.memoLog[m:] {
+		delete(s.memo, k)
+	}
+	s.memoLog = s.memoLog[:m]
 }
 
 func NewScript(name string) *Script {
@@ -116,6 +152,16 @@ func (s *Script) Define(prefix string, t *Term) *Term {
 	if t.op == "const" || t.op == "int" || t.op == "bool" {
 		return t
 	}
+	if s.memo != nil {
+		if c, ok := s.memo[t.String()]; ok {
+			return c
+		}
+		c := s.Fresh(prefix, t.sort)
+		s.Assert(mkApp("=", SBool, c, t))
+		s.memo[t.String()] = c
+		s.memoLog = append(s.memoLog, t.String())
+		return c
+	}
 	c := s.Fresh(prefix, t.sort)
 	s.Assert(mkApp("=", SBool, c, t))
 	return c
@@ -169,6 +215,21 @@ func header(solver string, timeoutMs int) string {
 func (s *Script) renderBatch(solver string, timeoutMs int, only map[int]bool) string {
 	var b strings.Builder
 	b.WriteString(header(solver, timeoutMs))
+	if s.scoped {
+		for _, line := range s.base {
+			if strings.HasPrefix(line, "(declare-fun") {
+				b.WriteString(line)
+				b.WriteString("\n")
+			}
+		}
+		for _, line := range s.top {
+			if s.dropQuant && (strings.Contains(line, "(forall ") || strings.Contains(line, "(exists ")) {
+				continue
+			}
+			b.WriteString(line)
+			b.WriteString("\n")
+		}
+	}
 	oi := 0
 	emitObl := func(i int) {
 		if only != nil && !only[i] {
@@ -182,6 +243,12 @@ func (s *Script) renderBatch(solver string, timeoutMs int, only map[int]bool) st
 			emitObl(oi)
 			oi++
 		}
+		if s.scoped && strings.HasPrefix(line, "(declare-fun") {
+			continue
+		}
+		if s.dropQuant && (strings.Contains(line, "(forall ") || strings.Contains(line, "(exists ")) {
+			continue
+		}
 		b.WriteString(line)
 		b.WriteString("\n")
 	}
@@ -192,6 +259,36 @@ func (s *Script) renderBatch(solver string, timeoutMs int, only map[int]bool) st
 	return b.String()
 }
 
+// prefixLines returns the script lines in force at position pos: for a scoped script the
+// declarations and top-level facts first, then the lines of the scopes still open at pos.
+func (s *Script) prefixLines(pos int) []string {
+	if !s.scoped {
+		return s.base[:pos]
+	}
+	var out []string
+	for _, line := range s.base {
+		if strings.HasPrefix(line, "(declare-fun") {
+			out = append(out, line)
+		}
+	}
+	out = append(out, s.top...)
+	var live []string
+	var marks []int
+	for _, line := range s.base[:pos] {
+		switch {
+		case line == "(push 1)":
+			marks = append(marks, len(live))
+		case line == "(pop 1)":
+			live = live[:marks[len(marks)-1]]
+			marks = marks[:len(marks)-1]
+		case strings.HasPrefix(line, "(declare-fun"):
+		default:
+			live = append(live, line)
+		}
+	}
+	return append(out, live...)
+}
+
 // renderSingle renders obligation i alone with model extraction.
 func (s *Script) renderSingle(solver string, timeoutMs int, i int) string {
 	var b strings.Builder
@@ -200,7 +297,7 @@ func (s *Script) renderSingle(solver string, timeoutMs int, i int) string {
 	}
 	b.WriteString(header(solver, timeoutMs))
 	o := s.Obls[i]
-	for _, line := range s.base[:o.pos] {
+	for _, line := range s.prefixLines(o.pos) {
 		b.WriteString(line)
 		b.WriteString("\n")
 	}
